@@ -8,33 +8,32 @@
  * (message list and closed state).  If no flag set reproduces it, the divergence is reported
  * under its generic key and is a VIOLATION.  The model never makes an execution pass.
  *
- * Unlike the reference decoder this model is fed read by read (the bytes that arrive in one
- * read callback), because WSQ_PARSE_AFTER_CLOSE depends on what is already buffered when the
- * connection is closed, and like ws.c it judges a frame when the frame is complete (when the
- * header is complete for the 64-bit size limit).
+ * Like ws.c (and unlike the reference decoder, which decides on the header) this model judges a
+ * frame when the frame is complete (on the 10 header bytes for the 64-bit size limit); it is fed
+ * read by read.  Close / failure is terminal: nothing after it is parsed, so for complete
+ * streams the two timings give the same result.
  */
 #ifndef WS_QUIRKS_H
 #define WS_QUIRKS_H
 #include <stddef.h>
 #include <stdint.h>
 
-/* A: a FIN continuation frame (opcode 0) that ends a fragmented message closes the connection
- *    instead of delivering the message ("unexpected frame type 0"); the fragments stay buffered */
-#define WSQ_CONT_FIN_REJECTED       0x01
-/* B: a text/binary frame while a fragmented message is in progress is appended to it; a FIN one
+/* The two registered (unrepaired) deviation classes — upstream's own, non-RFC notion of
+ * fragmentation (test/regress_ws.c sends TEXT, TEXT, TEXT|FIN):
+ * B: a text/binary frame while a fragmented message is in progress is appended to it; a FIN one
  *    delivers the concatenation with the type of that last frame */
 #define WSQ_DATA_IN_FRAGMENTED_OK   0x02
-/* C: a non-FIN continuation frame with no message in progress starts a message */
+/* C: a non-FIN continuation frame with no message in progress starts a message (which can only
+ *    be completed through B: a FIN continuation frame ending it closes the connection) */
 #define WSQ_CONT_WITHOUT_START_OK   0x04
-/* D: after the connection is closed (close frame, invalid frame, evws_close() in the message
- *    callback) the rest of the bytes of the same read is still parsed and delivered */
-#define WSQ_PARSE_AFTER_CLOSE       0x08
-/* E1: a control frame without FIN is treated like one with FIN */
-#define WSQ_CTRL_FRAGMENTED_OK      0x10
-/* E2: a control frame with more than 125 payload bytes is accepted */
-#define WSQ_CTRL_TOO_LONG_OK        0x20
-#define WSQ_NFLAGS 6
-#define WSQ_ALL 0x3f
+/* Only these may explain a divergence.  Four further classes existed until their fixes were
+ * committed to /repo and are deliberately NOT candidate explanations any more, so that a
+ * regression of any of them is reported as a violation under its generic key:
+ *   0x01 FIN continuation frame rejected            (fixed by b4155d5)
+ *   0x08 frames after close still delivered         (fixed by 989c2c6)
+ *   0x10 control frame without FIN accepted         (fixed by dd97d5c)
+ *   0x20 control frame over 125 bytes accepted      (fixed by dd97d5c) */
+#define WSQ_REGISTERED (WSQ_DATA_IN_FRAGMENTED_OK | WSQ_CONT_WITHOUT_START_OK)
 
 struct wsq_msg { int type; unsigned char *data; size_t len; };
 struct wsq_result { struct wsq_msg *msgs; size_t nmsgs, cap; int closed; };
